@@ -50,6 +50,10 @@ CLAIMS = {
    technique="whole-program effect analysis (who-may-write shared static objects over the call graph from the exported API), typestate evaluation of the C11 compare-and-swap protocol over the finite domain of rproc.st, dominance-based guarded-read analysis, escape and non-reentrant-libc scans",
    text="Over every function reachable from the 35+ exported symbols (ovni.c, common.c, compat.c, parson.c; hooks and function arguments resolved conservatively) the only written non-thread-local static object is rproc; rthread is _Thread_local and rproc.st _Atomic; ovni_proc_init / ovni_proc_fini are evaluated from all four values of rproc.st with the atomics executed on the abstract store: they proceed exactly from UNINIT resp. READY, die before any effect otherwise, and all process fields are written between the winning CAS and the store of READY; every other read of a process field is dominated by a READY / thread-ready test that dies, or lies in a static function all of whose call sites are (one frozen exception: the clock source in ovni_clock_now); no address of thread-local state escapes, no threads are created, no non-reentrant libc routine is reachable (strerror in diagnostics excepted). Not decided: interference through the file system between threads using the same TID, and memory-model subtleties below the C11 atomics.",
    design_ref="§4 C11"),
+ "C12": dict(
+   technique="guards-that-must-dominate-uses, decided by abstract evaluation: header/version predicates over boundary values, relational interval analysis of the per-stream clock test, definite-assignment analysis of the decoded event over all payload shapes, dispatch evaluation with one-byte-short payloads, error propagation to the exit status",
+   text="check_stream_header is evaluated on 30 (size, magic, version) cases and must accept exactly the valid header; an empty file and a bad header keep the stream inactive; for every clock value stream_step accepts an event of a sorted stream only if its corrected clock does not decrease, the unsorted flag has a single writer the emulator never reaches (player_init(...,0)), and the cross-stream check rejects backward jumps; unparsable metadata, any metadata version but the supported one and the absence of each of 7 mandatory attributes make the reader fail, each failure followed call site by call site (including the nftw callback) to ovniemu's exit status; emu_ev() must assign every field of the decoded event on every payload shape; an event one byte shorter than declared never reaches the code reading the missing bytes. Unknown codes and events of models not enabled are decided by C18/C14. Not decided: 'every single corruption' as an input enumeration.",
+   design_ref="§4 C12"),
  "C13": dict(
    technique="abstract exploration (merging worklist over clang CFGs) of system_connect and every model's create/connect/finish hooks to compute registered vs. declared PRV types per output; constant-table label coverage; abstract evaluation of prv_advance/prv_close/prf_add/prf_close",
    text="Per output (thread, cpu, both breakdown traces) the set of PRV types that can reach prv_register is computed from the code and constant tables and must be contained in the set reaching pcf_add_type on the same output; every constant value a model can write to a labelled channel (dispatch tables, task-body pushes, connect defaults, mux defaults, thread states, CPU affinity) must have a label; prv_advance / prv_close / write_line / prf_add / prf_close are evaluated on boundary cases (time going back, header rewrite, row bounds, duplicate and unset rows) and prv->time has a single writer. Not decided: that row numbers passed to prv_register are below the declared row count (a data fact of gindex numbering) and the zero/duplicate emission policy at run time.",
